@@ -96,6 +96,11 @@ func (f *Frame) execCall(ins ssa.Instruction, c *ssa.CallCommon, st *State) Val 
 	if benign(name) {
 		return resultVal(u, st, sig, "r_"+sanitize(name))
 	}
+	if u.spec != nil && u.spec.Dyn != nil && name == "" {
+		if ds, ok := u.spec.Dyn[calleeShort(c)]; ok {
+			return f.applyContract(ds, ds.Name, c, sig, args, st, anchor)
+		}
+	}
 	// unknown call: havoc the heap
 	u.abstractf("%s: call to %s has no contract: heap havoced, result unconstrained", u.name, orDyn(name, c))
 	u.havocAll(st)
